@@ -107,6 +107,15 @@ def build_calls(quick):
             for cond in (f"{e1} = 7 AND {e2} = 1", f"{e2} = 1 AND {e1} = 7", f"{e1} = 7 OR {e2} = 1 OR {e1} = 8", f"{e1} = {e2} AND {e2} = 1"):
                 add("simplify_d", cond, d)
                 add("optimize", f"SELECT a FROM x WHERE {cond.replace('j ->', 'x.a ->').replace('t.', 'x.')}", d, "opt")
+    # one join whose condition refers to SEVERAL cross-joined tables (sets / dicts of table names with more than one member: which
+    # cross join receives the predicate, and the resulting join order, must not depend on how those collections iterate)
+    conds = ["t.a + u.a = z.a", "u.a = z.a AND v.a = z.a", "t.a + u.a = z.a AND v.b = z.b", "t.a = z.a AND u.b = z.b AND v.a = z.a", "t.a + u.a + v.a = z.a",
+             "t.a = z.a AND u.a = z.b", "u.a + v.a = z.a AND t.b = z.b", "t.a = u.a AND u.b = v.b AND v.a = z.a"]
+    for cnd in conds:
+        add("optimize", f"SELECT * FROM t CROSS JOIN u CROSS JOIN v JOIN t AS z ON {cnd}", "", "core")
+        add("optimize", f"SELECT t.b FROM t, u, v, t AS z WHERE {cnd}", "", "core")
+        add("optimize", f"SELECT z.a FROM v CROSS JOIN u CROSS JOIN t JOIN t AS z ON {cnd}", "duckdb", "core")
+        add("optimize", f"SELECT COUNT(*) AS n FROM t AS z, t, u, v WHERE {cnd} AND t.c = 1", "", "core")
     for r in relations(2)[::(4 if quick else 1)]:
         sql = render_cte(r)
         for name, _ in r.cols:
